@@ -195,6 +195,7 @@ def execute(ctx, spec, config, ops, r_seed, fail_at, multi, base_depth_delta):
             if not compare(f"{res.kind} ({'ok' if res.ok else res.error})", weights_may_move=(res.kind == "other_grammar")):
                 break
         out["flaky_calls"] = w.flaky_calls
+        out["draws"] = getattr(w.random, "draws", 0)
         return out
     finally:
         w.dispose()
@@ -218,16 +219,23 @@ def run(ctx):
         ctx.nontrivial = True
     if ctx.violations:
         return
-    if ctx.tier == "thorough" and n_ops <= 6:
-        sites = list(range(n))
+    if ctx.tier == "thorough" and n_ops <= 6 and n <= 48:
+        sites = list(range(n))  # every call site of a short sequence (a sequence with more sites than that is sampled)
     else:
         sites = sorted({H.draw(n) for _ in range(min(n, 6 if ctx.tier == "quick" else 16))}) if n else []
+    work = 0
     for k in sites:
         out = execute(ctx, spec, config, ops, r_seed, k, False, depth_delta)
         ctx.stat("single_fault_executions")
         ctx.nontrivial = True
         if ctx.violations:
             return
+        # a deterministic work budget (random draws answered by the simulator): sequences whose operations run into their
+        # caps again and again are not re-executed for every remaining call site
+        work += out.get("draws", 0)
+        if work > 400_000:
+            ctx.stat("fault_enumeration_cut_by_work_budget")
+            break
     out = execute(ctx, spec, config, ops, r_seed, None, True, depth_delta)
     ctx.stat("multi_fault_executions")
     if out["failed_ops"] or ctx.faults.get("synthesis_exception"):
